@@ -3,19 +3,19 @@ CONSTANTS
   ElemIgnore = TRUE
   MinVisSet <- Both
   File2Srcs <- None
-  ClassHeads <- KindHeads
+  ClassHeads <- AliasHeads
   NestedKeys <- None
-  MemberAlpha <- KindMembers
+  MemberAlpha <- AliasMembers
   MaxMembers <- M20
-  MaxClasses = 1
+  MaxClasses = 2
   BaseAlpha <- None
   MaxBases = 1
   ClassComments <- NoComment
-  TopAlpha <- None
-  MaxTops = 0
-  AliasAlpha <- None
-  MaxAliases = 0
-  CmdKinds <- None
+  TopAlpha <- AliasTops
+  MaxTops = 1
+  AliasAlpha <- AliasForms
+  MaxAliases = 2
+  CmdKinds <- AliasCmds
 INVARIANT SafeVis
 INVARIANT SafeAccess
 INVARIANT SafeKind
